@@ -31,7 +31,8 @@ type taskCase struct {
 	Fail       []int  `json:"fail"` // exit status per command (0 = succeeds)
 	How        string `json:"how"`  // exit | subshell | sh | signal
 	Allow      bool   `json:"allow_failure"`
-	Before     int    `json:"before"` // 0 absent, 1 ok, 2 fails
+	Before     int    `json:"before"` // 0 absent, 1 ok, 2 fails, 3 = two commands [fails, ok], 4 = two commands [ok, fails]
+	Rerun      bool   `json:"rerun,omitempty"` // the same task object is run a second time after a first run in which its first command failed
 	After      int    `json:"after"`
 	Cond       int    `json:"cond"` // 0 absent, 1 true, 2 false
 	Overlap    bool   `json:"overlap_probe,omitempty"`
@@ -89,6 +90,17 @@ func runTaskCase(a args, tcase taskCase, idx int, shared *runner.TaskRunner) {
 		t.Before = []string{tok("before")}
 	case 2:
 		t.Before = []string{tok("before") + "; exit 3"}
+	case 3:
+		t.Before = []string{tok("before") + "; exit 3", tok("before2")}
+	case 4:
+		t.Before = []string{tok("before"), tok("before2") + "; exit 3"}
+	}
+	flag := filepath.Join(a.Work, fmt.Sprintf("rerun.flag.%d", idx))
+	if tcase.Rerun {
+		// first run: the first command fails because the flag file is missing; then the harness creates it
+		os.Remove(flag)
+		t.Commands[0] = fmt.Sprintf("test -e '%s' || exit 9; ", flag) + t.Commands[0]
+		defer os.Remove(flag)
 	}
 	switch tcase.After {
 	case 1:
@@ -120,7 +132,11 @@ func runTaskCase(a args, tcase taskCase, idx int, shared *runner.TaskRunner) {
 		if tcase.Before != 0 {
 			want = append(want, "before")
 		}
-		if tcase.Before == 2 {
+		if tcase.Before == 4 {
+			want = append(want, "before2")
+		}
+		if tcase.Before >= 2 {
+			// a failing `before` prevents all commands (whether a later before command still runs is open)
 			wantErr = true
 			wantAfterOptional = true
 			wantExit = -999 // not determined by the statement
@@ -180,6 +196,25 @@ func runTaskCase(a args, tcase taskCase, idx int, shared *runner.TaskRunner) {
 	} else if shared != nil {
 		// several tasks run at the same time on one runner (as parallel stages do)
 		err = shared.Run(t)
+	} else if tcase.Rerun {
+		r := newQuietRunner()
+		r.Stdout = &so
+		first := r.Run(t) // fails at the first command
+		if first == nil {
+			out.Viol("C06", "rerun-setup", "the first run was expected to fail at its first command", tcase)
+		}
+		os.Remove(trace)
+		so = syncBuf{}
+		r.Stdout = &so
+		os.WriteFile(flag, nil, 0o644)
+		run2 := t
+		if idx%2 == 1 {
+			cp := *t // the watcher and the scheduler run struct copies of a task
+			run2 = &cp
+		}
+		err = r.Run(run2)
+		t = run2
+		lockedFinish(r.Finish)
 	} else {
 		r := newQuietRunner()
 		r.Stdout = &so
@@ -205,8 +240,19 @@ func runTaskCase(a args, tcase taskCase, idx int, shared *runner.TaskRunner) {
 
 	// C06: ordered trace
 	okTrace := strings.Join(got, " ") == strings.Join(want, " ")
-	if !okTrace && wantAfterOptional && tcase.After != 0 {
-		okTrace = strings.Join(got, " ") == strings.Join(append(append([]string(nil), want...), "after"), " ")
+	if !okTrace && wantAfterOptional {
+		alts := [][]string{want}
+		if tcase.Before == 3 {
+			alts = append(alts, append(append([]string(nil), want...), "before2"))
+		}
+		for _, alt := range alts {
+			if strings.Join(got, " ") == strings.Join(alt, " ") {
+				okTrace = true
+			}
+			if tcase.After != 0 && strings.Join(got, " ") == strings.Join(append(append([]string(nil), alt...), "after"), " ") {
+				okTrace = true
+			}
+		}
 	}
 	if !okTrace {
 		sig := "trace-differs"
@@ -243,7 +289,7 @@ func runTaskCase(a args, tcase taskCase, idx int, shared *runner.TaskRunner) {
 	if (err != nil) != wantErr {
 		out.Viol("C07", "error-return", fmt.Sprintf("Run/Schedule returned err=%v, the statement requires error=%v", err, wantErr), cas)
 	}
-	if tcase.Before != 2 {
+	if tcase.Before < 2 && !tcase.Rerun {
 		if t.Errored != wantErrored {
 			out.Viol("C07", "errored-flag", fmt.Sprintf("Task.Errored=%v, want %v", t.Errored, wantErrored), cas)
 		}
@@ -320,6 +366,24 @@ func modeTask(a args) {
 					}
 				}
 			}
+		}
+		// two `before` commands of which one fails; the same task object run again after a failed run
+		for n := 1; n <= 2; n++ {
+			for _, b := range []int{3, 4} {
+				for af := 0; af < 2; af++ {
+					for _, allow := range []bool{false, true} {
+						cases = append(cases, taskCase{Commands: n, Fail: make([]int, n), Before: b, After: af, Allow: allow, How: "exit", Variations: af})
+					}
+				}
+			}
+		}
+		for i := 0; i < a.n(40, 400); i++ {
+			n := rnd.Range(1, 3)
+			tcx := taskCase{Commands: n, Fail: make([]int, n), Variations: rnd.Intn(3), Before: rnd.Intn(2), After: rnd.Intn(2), Cond: rnd.Intn(2), Rerun: true, How: "exit"}
+			if rnd.Chance(30) && n > 1 {
+				tcx.Fail[n-1] = rnd.Range(1, 255)
+			}
+			cases = append(cases, tcx)
 		}
 		// seeded larger tasks
 		for i := 0; i < a.n(300, 3000); i++ {
